@@ -70,7 +70,20 @@ func firstDiff(a, b string) string {
 			y = lb[i]
 		}
 		if x != y {
-			return fmt.Sprintf("line %d: %q vs %q", i, clip(x, 300), clip(y, 300))
+			// long lines (a LatestBlockState, a validator set): show the neighbourhood of the first difference
+			k := 0
+			for k < len(x) && k < len(y) && x[k] == y[k] {
+				k++
+			}
+			from := k - 80
+			if from < 0 {
+				from = 0
+			}
+			pre := ""
+			if from > 0 {
+				pre = "..."
+			}
+			return fmt.Sprintf("line %d, offset %d: %q vs %q", i, k, pre+clip(x[from:], 300), pre+clip(y[from:], 300))
 		}
 	}
 	return ""
